@@ -12,6 +12,10 @@
         xot.html5().serialize_write(parameters, node, &mut FailingWriter { fail_at_call: k })
         (`serializeHtmlWriteW (budget (some k))`): outcome (`err:Io` at the refused call) and the bytes the writer holds
 
+    html write_bytes <n> <cdata> <indent> <path> <tree>
+        xot.html5().serialize_write(parameters, node, &mut ByteBudgetWriter { remaining: n })
+        (`serializeHtmlWriteB (byteBudget n)`): outcome and the BYTES the writer holds (`b:` + hex bytes)
+
   <cdata>  : `-` or comma-separated name ids (cdata_section_elements)
   <indent> : `-` (no indentation) | `i` (empty suppress list) | `i<ids>`
   Answers: `ok <str>` | `err:<Variant>` | `panic`; for `write`: `<ok|err:…|panic> <bytes written>`.
@@ -51,6 +55,12 @@ def handleHtml (st : DState) : List String → Option String
       let (t, p) ← parseTreeAt path toks
       let r := serializeHtmlWriteW (.budget (some k)) st.env pr t p
       some (showHtmlOutcome (htmlCtx st.env pr).env (fun _ => "ok") r.2 ++ " " ++ encStr r.1)
+  | "write_bytes" :: n :: cd :: ind :: path :: toks => do
+      let n ← n.toNat?
+      let pr : HtmlParams := ⟨← parseIndent ind, ← parseNatList cd⟩
+      let (t, p) ← parseTreeAt path toks
+      let r := serializeHtmlWriteB (.byteBudget n) st.env pr t p
+      some (showHtmlOutcome (htmlCtx st.env pr).env (fun _ => "ok") r.2 ++ " " ++ encBytes r.1)
   | "write" :: cd :: ind :: path :: toks => do
       let pr : HtmlParams := ⟨← parseIndent ind, ← parseNatList cd⟩
       let (t, p) ← parseTreeAt path toks
